@@ -61,6 +61,7 @@ func (o *Obs) addInvoke(i Invoke) {
 
 // Rec is the harness's http.ResponseWriter.
 type Rec struct {
+	FailBody  bool // the client is gone: every body write fails
 	H         http.Header
 	Status    int
 	Sent      http.Header // header snapshot at the moment the status line went out
@@ -70,6 +71,8 @@ type Rec struct {
 }
 
 func NewRec() *Rec { return &Rec{H: http.Header{}} }
+
+var errClientGone = fmt.Errorf("write: broken pipe (client gone)")
 
 func (r *Rec) Header() http.Header { return r.H }
 
@@ -85,6 +88,9 @@ func (r *Rec) Write(b []byte) (int, error) {
 	if r.Status == 0 {
 		r.WriteHeader(200)
 	}
+	if r.FailBody {
+		return 0, errClientGone
+	}
 	r.WriteCall++
 	return r.Body.Write(b)
 }
@@ -97,6 +103,23 @@ func (r *Rec) Flush() {
 	if r.Status == 0 {
 		r.WriteHeader(200)
 	}
+}
+
+// ClientBody is the body as an HTTP/1.1 client receives it: when the response declares a Content-Length the client
+// reads exactly that many bytes (fewer sent: it runs into an unexpected EOF; more sent: net/http refuses the surplus).
+func (r *Rec) ClientBody() ([]byte, error) {
+	b := r.Body.Bytes()
+	if v := r.Hdr().Get("Content-Length"); v != "" {
+		if n, err := strconv.Atoi(v); err == nil && n >= 0 {
+			if len(b) < n {
+				return b, fmt.Errorf("Content-Length declares %d bytes, %d were sent: the client gets an unexpected EOF", n, len(b))
+			}
+			if len(b) > n {
+				return b[:n], fmt.Errorf("Content-Length declares %d bytes, %d were written", n, len(b))
+			}
+		}
+	}
+	return b, nil
 }
 
 // Code is the status a client would see.
@@ -301,7 +324,7 @@ func AddRoute(ws *restful.WebService, rs *RouteSpec, o BuildOpts) {
 // NewService builds the WebService for a SvcSpec (routes in the given order; nil = as specified).
 func NewService(s *SvcSpec, order []int, o BuildOpts, svcIdx int) *restful.WebService {
 	ws := new(restful.WebService)
-	ws.Path(s.Root.String())
+	ws.Path(s.RenderRoot())
 	if o.Dynamic {
 		ws.SetDynamicRoutes(true)
 	}
@@ -330,6 +353,13 @@ func NewService(s *SvcSpec, order []int, o BuildOpts, svcIdx int) *restful.WebSe
 
 // Build turns a Table into a real container.
 func Build(t *Table, o BuildOpts) *restful.Container {
+	c, _ := BuildWS(t, o)
+	return c
+}
+
+// BuildWS is Build that also hands out the WebServices (indexed like Table.Svcs; nil where a service was not built).
+func BuildWS(t *Table, o BuildOpts) (*restful.Container, []*restful.WebService) {
+	wss := make([]*restful.WebService, len(t.Svcs))
 	c := restful.NewContainer()
 	if o.Switched {
 		if o.Router == "jsr311" {
@@ -371,9 +401,10 @@ func Build(t *Table, o BuildOpts) *restful.Container {
 		if o.RouteOrder != nil {
 			ord = o.RouteOrder[i]
 		}
-		c.Add(NewService(s, ord, o, i))
+		wss[i] = NewService(s, ord, o, i)
+		c.Add(wss[i])
 	}
-	return c
+	return c, wss
 }
 
 // Entry points.
@@ -419,8 +450,12 @@ func HTTPRequest(req *Req, obs *Obs) *http.Request {
 
 // Run sends the request through the entry point and returns what was observed.
 func Run(c *restful.Container, entry string, req *Req) (out *Outcome) {
+	return RunRec(c, entry, req, NewRec())
+}
+
+// RunRec is Run with a recording writer chosen by the caller (e.g. one whose client is gone).
+func RunRec(c *restful.Container, entry string, req *Req, rec *Rec) (out *Outcome) {
 	obs := &Obs{}
-	rec := NewRec()
 	out = &Outcome{Obs: obs, Rec: rec}
 	hr := HTTPRequest(req, obs)
 	func() {
